@@ -1,6 +1,6 @@
 use crate::VueJsxTransformVisitor;
 use indexmap::{IndexMap, IndexSet};
-use std::borrow::Cow;
+use std::{borrow::Cow, cell::Cell};
 use swc_core::{
     common::{comments::Comments, EqIgnoreSpan, Span, Spanned, DUMMY_SP},
     ecma::{
@@ -23,10 +23,38 @@ struct PropIr {
     required: bool,
 }
 
+/// Type resolution follows user-declared aliases and interfaces; beyond this nesting depth the
+/// types are considered circular (`type T = T`, `interface I extends I`, ...).
+const MAX_TYPE_RESOLUTION_DEPTH: usize = 64;
+
+/// Leaves one level of type resolution when dropped.
+struct TypeResolutionGuard<'a>(&'a Cell<usize>);
+
+impl Drop for TypeResolutionGuard<'_> {
+    fn drop(&mut self) {
+        self.0.set(self.0.get() - 1);
+    }
+}
+
 impl<C> VueJsxTransformVisitor<C>
 where
     C: Comments,
 {
+    /// Enters one level of type resolution; reports an error and returns `None` when the types
+    /// are nested too deeply to be anything but circular.
+    fn enter_type_resolution(&self, span: Span) -> Option<TypeResolutionGuard<'_>> {
+        let depth = self.type_resolution_depth.get();
+        if depth >= MAX_TYPE_RESOLUTION_DEPTH {
+            HANDLER.with(|handler| {
+                handler.span_err(span, "Type is circular or nested too deeply to be resolved.");
+            });
+            None
+        } else {
+            self.type_resolution_depth.set(depth + 1);
+            Some(TypeResolutionGuard(&self.type_resolution_depth))
+        }
+    }
+
     pub(crate) fn extract_props_type(&mut self, setup_fn: &ExprOrSpread) -> Option<Expr> {
         let mut defaults = None;
         let first_param_type = if let ExprOrSpread { expr, spread: None } = setup_fn {
@@ -360,6 +388,9 @@ where
     }
 
     fn resolve_type_elements(&self, ty: &TsType, props: &mut Vec<RefinedTsTypeElement>) {
+        let Some(_guard) = self.enter_type_resolution(ty.span()) else {
+            return;
+        };
         match ty {
             TsType::TsTypeLit(TsTypeLit { members, .. }) => {
                 props.extend(members.iter().filter_map(|member| match member {
@@ -588,6 +619,9 @@ where
     }
 
     fn resolve_string_or_union_strings(&self, ty: &TsType) -> Vec<Atom> {
+        let Some(_guard) = self.enter_type_resolution(ty.span()) else {
+            return vec![];
+        };
         match ty {
             TsType::TsLitType(TsLitType {
                 lit: TsLit::Str(key),
@@ -639,6 +673,7 @@ where
     }
 
     fn resolve_indexed_access(&self, obj: &TsType, index: &TsType) -> Option<TsType> {
+        let _guard = self.enter_type_resolution(obj.span())?;
         match obj {
             TsType::TsTypeRef(TsTypeRef {
                 type_name: TsEntityName::Ident(ident),
@@ -943,6 +978,9 @@ where
 
     fn infer_runtime_type(&self, ty: &TsType) -> IndexSet<Option<Atom>> {
         let mut runtime_types = IndexSet::with_capacity(1);
+        let Some(_guard) = self.enter_type_resolution(ty.span()) else {
+            return runtime_types;
+        };
         match ty {
             TsType::TsKeywordType(keyword) => match keyword.kind {
                 TsKeywordTypeKind::TsStringKeyword => {
